@@ -341,6 +341,7 @@ func mergeSummary(pr *phaseResult, mu *sync.Mutex, base string) {
 func raceClass(rep string) string { return eng.RaceClass(rep) }
 
 var harnessRaces int
+var autoSkipped bool
 var irreproducibleStalls int
 
 // driverArtefact: one of the two accesses was made by the scheduler's driver goroutine, which runs
@@ -451,12 +452,30 @@ func main() {
 		}
 		if _, ok := m[ph.Race]; !ok {
 			b, err := buildX(ph.Race, ph.Auto)
+			if err != nil && ph.Auto {
+				// The statement-level instrumentation is a rewrite of flamego's sources; if a tree
+				// contains something the rewriter or the overlay build cannot digest, the phases on
+				// the hand-placed hook sites still decide the property. Say so and go on.
+				fmt.Printf("NOTE: the instrumented (autoyield) build is unavailable for this tree, its phases are skipped: %s\n", head(err.Error(), 600))
+				autoSkipped = true
+				m[ph.Race] = ""
+				continue
+			}
 			if err != nil {
 				os.RemoveAll(tmp)
 				fatal(2, "%v", err)
 			}
 			m[ph.Race] = b
 		}
+	}
+	if autoSkipped {
+		var kept []phase
+		for _, ph := range phases {
+			if !ph.Auto {
+				kept = append(kept, ph)
+			}
+		}
+		phases = kept
 	}
 	binOf := func(ph phase) string {
 		if ph.Auto {
@@ -724,6 +743,7 @@ func writeEvidence(id, mode string, seed uint64, results []*phaseResult, nviol i
 	cov["switch_pairs_distinct"] = len(pairs)
 	cov["counters"] = extra
 	cov["irreproducible_stalls_ignored"] = irreproducibleStalls
+	cov["autoyield_phases_skipped_build_unavailable"] = autoSkipped
 	cov["known_findings_observed"] = knownObs
 	cov["phases"] = phasesOut
 	cov["real_vs_stub"] = map[string]string{
